@@ -3,6 +3,7 @@
 import json, os, subprocess
 ROOT = os.path.dirname(os.path.dirname(os.path.abspath(__file__)))
 
+SCHED = "E3 stateless DFS over task orders of run_schedule through the fork/join seam H2 (mc/sched, generated schedule family)"
 HIST = "E1 explicit-state BFS over operation histories on the real World (mc/hist)"
 CHECKS = {
  "C01": ("model_checking", "§2 C01", HIST,
@@ -32,6 +33,15 @@ CHECKS = {
  "C16": ("model_checking", "§2 C16", HIST + " (pair mode)",
    "Every ordered pair of a reachable state set (values normalised to a function of identifier and component): reflexive, symmetric, equal implies same contents; every state against 12 single perturbations (value, resource, live set, component set): unequal in both directions. clone and round trips comparing equal are checked by C10/C06 runs.",
    "state set bounded as reported"),
+ "C07": ("model_checking", "§2 C07", SCHED,
+   "Every schedule type of a generated family (ordered pairs/triples of view kinds, filter-disjoint writers, resource views, entry views, ParSystems, longer schedules) x 86 worlds x 2 address salts x every permutation of every fork/join nest, executed on the real run_schedule through the fork/join seam; per-task run count = 1 and final world, resources and every system's own state equal those of run_system/run_par_system applied one by one in declared order.",
+   "schedule family bounded (<=5 tasks, registry (A,B,C), 2 resources); task bodies atomic (justified by C08's oracle on the same runs); rayon trusted"),
+ "C08": ("model_checking", "§2 C08", SCHED,
+   "Same runs. Every task records address/size/mode of everything it is handed (iterator items, resource views, every reference reachable through its entry views); for every two tasks of one fork/join nest (i.e. permitted to overlap) no two ranges overlap with one side mutable. A happens-before argument over the fork/join structure, so all interleavings of a run are covered at once.",
+   "as C07"),
+ "C12": ("model_checking", "§2 C12", SCHED,
+   "Same runs. On worlds where nothing is borrowed the partition of tasks into fork/join nests must equal a greedy in-order grouping by declared access computed by the harness; on populated worlds no task may run in a later nest than its greedy group. Termination: every explored order runs to completion under the seam; every schedule also returns on real pools of 1, 2 and 4 threads (regression guard, sampling).",
+   "greedy reference ignores filters and entity::Identifier, as the property states"),
 }
 NOT_YET = {
  "C03": "check under construction (E2 view/filter grid)",
@@ -81,8 +91,10 @@ def main():
     }
     json.dump(m, open(os.path.join(ROOT, "MANIFEST.json"), "w"), indent=1)
 
-TECH = {}
+TECH = {p: "stateless model checking of the implementation: exhaustive enumeration of task orders per fork/join nest under a controlled scheduler, sequential reference / footprint oracle" for p in ("C07", "C08", "C12")}
 ENGINES = [
+ {"name": "sched", "path": "/verif/mc/sched", "serves_properties": ["C07", "C08", "C12"],
+  "kind_free_text": "stateless exploration (DFS with prefix replay) of every admissible task order of run_schedule via the cfg(brood_verif) fork/join seam, generated schedule family x world catalogue, sequential reference + footprint oracle"},
  {"name": "hist", "path": "/verif/mc/hist", "serves_properties": ["C01", "C02", "C04", "C05", "C06", "C10", "C13", "C15", "C16"],
   "kind_free_text": "explicit-state BFS over operation histories executed on the real brood::World inside deterministic arenas, lock-step reference model, structural audit, drop ledger"},
 ]
